@@ -24,3 +24,9 @@ claim("C01", "bit-provenance abstract interpretation + opcode-table agreement",
       "the opcode table is compared row by row with an independent Dalvik table.",
       "Trusted: CPython ast, the abstract transfer functions of agstatic/bits.py, the hand-written spec table agstatic/spec/dalvik.py, "
       "cm.packer[fmt] == struct.Struct('<'+fmt). ODEX-only opcodes are outside the specification and not decided.")
+
+claim("C03", "bit-provenance abstract interpretation of LEB128 readers and writers (write-then-read composed abstractly)",
+      "readuleb128/readsleb128/readuleb128p1 are interpreted over symbolic bytes: every 1..5-byte path must be selected exactly by the continuation bits, "
+      "consume exactly that many bytes and produce the DEX-specified bit layout truncated to 32 bits with the right extension. The writers are interpreted on a "
+      "symbolic 32-bit value (magnitude classes by exact refinement) and their abstract output is run through the abstract reader: identity on every bit, flags correct.",
+      "Trusted: agstatic bit domain and interpreter; cm.packer['B'] is an unsigned byte; stream.read(1) yields the next byte (EOF makes unpack raise).")
